@@ -206,8 +206,20 @@ def run(ctx: Any, prog: Program) -> None:
         ctx.check('C12.W4', not bad, core, c, f'temp file may be opened with mode(s) {bad or modes}: exclusive creation ("x") is what keeps concurrent writers in one directory '
                   'from clobbering each other\'s temp files (a remembered name may meanwhile belong to another writer)', func=f'AtomicWriter.{getattr(fnx, "name", "?")}',
                   text=f'exclusive open {ast.unparse(c)[:50]}')
-        ok = dotted(c.func.value) == 'self._temp_name' if isinstance(c.func, ast.Attribute) else False
-        ctx.check('C12.W4', ok, core, c, 'only the temp path may be opened', func=f'AtomicWriter.{getattr(fnx, "name", "?")}', text=f'open target {ast.unparse(c.func)[:40]}')
+        tgt = dotted(c.func.value) if isinstance(c.func, ast.Attribute) else (dotted(c.args[0]) if c.args else None)
+        # aliases of the temp path: `name = self._temp_name = ...` / `name = self._temp_name`
+        aliases = {'self._temp_name'}
+        for n_ in ast.walk(fnx):
+            if isinstance(n_, ast.Assign):
+                names_ = [dotted(t) for t in n_.targets]
+                if 'self._temp_name' in names_ or dotted(n_.value) == 'self._temp_name':
+                    aliases |= {x for x in names_ if x}
+        if tgt in aliases:
+            ctx.check('C12.W4', True, core, c, 'only the temp path may be opened', func=f'AtomicWriter.{getattr(fnx, "name", "?")}', text='open target is the temp path')
+        elif tgt in ('self.filename', 'self._filename'):
+            ctx.check('C12.W4', False, core, c, f'`{ast.unparse(c)[:60]}` opens the destination itself: the old content is destroyed before the new one is complete', func=f'AtomicWriter.{getattr(fnx, "name", "?")}', text='open target is the temp path')
+        else:
+            ctx.shape('C12.W4', False, core, c, f'open target `{tgt}` not recognised', func=f'AtomicWriter.{getattr(fnx, "name", "?")}', text='open target is the temp path')
     tries = [n for n in walk_no_nested(mt) if isinstance(n, ast.Try)]
     ok = len(tries) == 1 and len(tries[0].handlers) == 1 and dotted(tries[0].handlers[0].type) == 'FileExistsError'
     ctx.check('C12.W4', ok, core, tries[0] if tries else mt, 'the name search may only continue on FileExistsError (any other error must propagate)', func='AtomicWriter.make_tempfile', text='retry only on FileExistsError')
